@@ -143,6 +143,18 @@ Theorem C03_uncommitted_ops_invisible : forall st o,
 Proof. exact noncommit_preserves_readable. Qed.
 Print Assumptions C03_uncommitted_ops_invisible.
 
+(* A restart (all writers closed, DB closed and opened again on the same files) keeps the
+   invariant and every committed domain with its bytes; no writer survives it.  (That the
+   index FILE equals the in-memory index at that point is the persistence protocol, C02;
+   here it is tied to the code by the correspondence check, which reopens the real
+   database and compares the loaded index.) *)
+Theorem C03_reopen : forall st, Inv st ->
+  Inv (fst (step st Reopen)) /\ d_ptrs (fst (step st Reopen)) = d_ptrs st /\
+  readable (fst (step st Reopen)) = readable st /\
+  map_Forall (fun _ wr => w_closed wr = true) (d_writers (fst (step st Reopen))).
+Proof. exact reopen_spec. Qed.
+Print Assumptions C03_reopen.
+
 (* Everything committed is readable: the iterator over TimeRangeMax enumerates every
    pointer of the index, in order. *)
 Theorem C03_committed_is_readable : forall st, Inv st ->
